@@ -38,6 +38,7 @@ def cases(tier, seed):
             if c.get('dest') == 'reg':
                 base.append(dict(c, reset=(1 << c['wd']) - 1))
                 base.append(dict(c, reset=1))
+                base.append(dict(c, reset=0))
         base += [dict(c, spare=2) for c in designs.op_cases([1, 3], ops='w+x', mul_max=0)]
         base += designs.misc_cases()
         base += designs.expr_cases(30, seed, n=6, maxw=5)
@@ -51,6 +52,7 @@ def cases(tier, seed):
             if c.get('dest') == 'reg':
                 base.append(dict(c, reset=(1 << c['wd']) - 1))
                 base.append(dict(c, reset=1))
+                base.append(dict(c, reset=0))
         base += [dict(c, spare=1 + i % 3) for i, c in enumerate(designs.op_cases([1, 3, 8], ops='w+-x<c', mul_max=0))]
         base += designs.misc_cases() + designs.dup_cases()
         base += designs.expr_cases(200, seed, n=8, maxw=6)
@@ -182,6 +184,19 @@ def run_case(case, ob, tier):
     v2 = Vars('s_')
     sp2 = spec.run(A, 1, v2, reg_init='sym', mem_init='sym')
     equiv.inductive_step(ob, pair, v2, site + ':step', memkeyB=memkey(A), assume=[z3.Not(d) for d in sp2.double_write])
+    regsA = A.wirevector_subset(pyrtl.Register)
+    if regsA and all(r.reset_value is not None for r in regsA):
+        # declared reset values (an explicit 0 included) win over a non-zero Simulation default_value in both blocks
+        ok = True
+        for r in regsA:
+            for i, rb in enumerate(B.reg_map[r]):
+                ok = ok and rb.reset_value is not None and int(rb.reset_value) == ((int(r.reset_value) >> i) & 1 if len(B.reg_map[r]) > 1
+                                                                                     else int(r.reset_value))
+        ob.fact('reset-values-carried-to-the-synthesized-registers', ok, site + ':reset_value')
+        v4 = Vars('d_')
+        sp4 = spec.run(A, 2, v4, reg_init='reset', mem_init='sym', default_value=1)
+        equiv.bmc_outputs(ob, pair, 2, v4, site + ':bmc-from-reset(default_value=1)', reg_init='reset', default_value=1,
+                          memkeyB=memkey(A), assume=[z3.Not(d) for d in sp4.double_write], compare_mems=False)
     if any(n.op in 'm@' for n in A.logic):
         # "a testbench written against the original ... runs unchanged on the result": also when that testbench uses
         # FastSimulation (memory_value_map keyed by the ORIGINAL MemBlock)
@@ -217,6 +232,9 @@ def replay(cex):
         return cex['obligation'] in bad, 'structural predicates failing on the real result: %r' % bad
     pair = make_pair(A, B)
     step = ':step' in site
+    if 'default_value=1' in site:
+        differs, text = equiv.replay_pair(pair, 2, cex.get('model', {}), reg_init='reset', memkeyB=memkey(A), default_value=1)
+        return differs, 'case=%r\n%s' % (case, text)
     fast = 'FastSimulation' in site
     differs, text = equiv.replay_pair(pair, 1 if step else (min(2, case['K']) if fast else case['K']), cex.get('model', {}),
                                       reg_init='sym' if step else 'reset', memkeyB=memkey(A), **({'kindB': 'fast'} if fast else {}))
